@@ -245,7 +245,7 @@ func TestOrchestrator(t *testing.T) {
 const tGroup = "TestGroup"
 
 type groupCase struct {
-	Members []Member `json:"members"` // State/When unused: the group starts them
+	Members []Member `json:"members"` // State: unstarted (the group starts it) | running / finished (somebody else started it, on a context of its own, before the group reached it); When unused
 	Ending  string   `json:"ending"`  // cancel | close
 	Procs   int      `json:"gomaxprocs"`
 }
@@ -264,6 +264,35 @@ func runGroup(c *groupCase) (string, string) {
 	for i, m := range c.Members {
 		ms[i] = mkMember(i, m, &clock)
 		svcs[i] = ms[i].svc
+	}
+	// members that somebody else started before the group reaches them:
+	// the group cannot start them again, but it still awaits them and
+	// reports their failures
+	var ownCancels []context.CancelFunc
+	defer func() {
+		for _, cf := range ownCancels {
+			cf()
+		}
+	}()
+	for i, m := range c.Members {
+		if m.State != "running" && m.State != "finished" {
+			continue
+		}
+		ownCtx, ownCancel := context.WithCancel(context.Background())
+		ownCancels = append(ownCancels, ownCancel)
+		if err := ms[i].svc.Start(ownCtx); err != nil {
+			return "harness", fmt.Sprintf("starting member %d on its own: %v", i, err)
+		}
+		if m.State == "finished" {
+			ownCancel()
+			fin := make(chan struct{})
+			go func() { _ = ms[i].svc.Wait(); close(fin) }()
+			select {
+			case <-fin:
+			case <-time.After(limit):
+				return "harness", fmt.Sprintf("member %d, started on its own and cancelled, has not finished", i)
+			}
+		}
 	}
 	g := srv.Group(fun.SliceIterator(svcs))
 	if err := g.Start(ctx); err != nil {
@@ -292,6 +321,12 @@ func runGroup(c *groupCase) (string, string) {
 	var werr error
 	done := make(chan struct{})
 	go func() { werr = g.Wait(); close(done) }()
+	// members running on a context of their own are ended a little later:
+	// the group has to go on waiting for them
+	time.Sleep(time.Millisecond)
+	for _, cf := range ownCancels {
+		cf()
+	}
 	select {
 	case <-done:
 	case <-time.After(limit):
@@ -301,7 +336,7 @@ func runGroup(c *groupCase) (string, string) {
 		if n := mm.runs.Load(); n != 1 {
 			return "twice", fmt.Sprintf("member %d was run %d times", i, n)
 		}
-		if e := mm.ctxEnded.Load(); e != 0 && e < stop {
+		if e := mm.ctxEnded.Load(); e != 0 && e < stop && c.Members[i].State != "finished" {
 			return "member-cancelled", fmt.Sprintf("the context of member %d ended (stamp %d) before the group was told to end (stamp %d)", i, e, stop)
 		}
 		if !mm.done.Load() {
@@ -344,7 +379,7 @@ func TestGroup(t *testing.T) {
 				m.Outcome = "ok"
 			}
 			c.Members = append(c.Members, m)
-			nonOK = nonOK || m.Outcome != "ok"
+			nonOK = nonOK || m.Outcome != "ok" || m.State != "unstarted"
 		}
 		for i := 0; i < reps; i++ {
 			if k, why := runGroup(c); why != "" {
@@ -367,8 +402,11 @@ type poolCase struct {
 	Jobs      []string `json:"jobs"`   // ok | error | panic
 	Early     int      `json:"early"`  // jobs added before the service starts
 	Ending    string   `json:"ending"` // close | cancel
-	Yields    []int    `json:"yields"`
-	Procs     int      `json:"gomaxprocs"`
+	// Racing: that many producers keep adding further (succeeding) jobs
+	// while the service is told to end, until the queue refuses them
+	Racing int   `json:"racing_producers,omitempty"`
+	Yields []int `json:"yields"`
+	Procs  int   `json:"gomaxprocs"`
 }
 
 func runPool(c *poolCase) (string, string) {
@@ -458,6 +496,37 @@ func runPool(c *poolCase) (string, string) {
 	} else if ran.Load() != 0 {
 		return "cleanup-early", fmt.Sprintf("Cleanup service ran %d functions before its shutdown", ran.Load())
 	}
+	// producers racing the shutdown
+	const maxExtra = 3000
+	extraRuns := make([]atomic.Int64, maxExtra)
+	extraAccepted := make([]atomic.Bool, maxExtra)
+	var extraNext atomic.Int64
+	var rwg sync.WaitGroup
+	stopRacing := make(chan struct{})
+	for p := 0; p < c.Racing; p++ {
+		rwg.Add(1)
+		go func() {
+			defer rwg.Done()
+			for {
+				select {
+				case <-stopRacing:
+					return
+				default:
+				}
+				k := int(extraNext.Add(1)) - 1
+				if k >= maxExtra {
+					return
+				}
+				if q.Add(func(context.Context) error { extraRuns[k].Add(1); return nil }) != nil {
+					return // the queue is closed: the shutdown has got this far
+				}
+				extraAccepted[k].Store(true)
+			}
+		}()
+	}
+	if c.Racing > 0 {
+		vkit.Yield(c.Yields[0])
+	}
 	if c.Ending == "close" {
 		s.Close()
 	} else {
@@ -469,7 +538,26 @@ func runPool(c *poolCase) (string, string) {
 	select {
 	case <-done:
 	case <-time.After(limit):
+		close(stopRacing)
 		return "stuck", fmt.Sprintf("%s: Wait has not returned %v after the service was told to end", c.Kind, limit)
+	}
+	close(stopRacing)
+	rwg.Wait()
+	nExtra, ranExtra := 0, 0
+	for k := range extraRuns {
+		r := extraRuns[k].Load()
+		if r > 1 {
+			return "twice", fmt.Sprintf("%s: a job added while the service was shutting down ran %d times", c.Kind, r)
+		}
+		if extraAccepted[k].Load() {
+			nExtra++
+			ranExtra += int(r)
+		}
+	}
+	if c.Kind == "Cleanup" && ranExtra != nExtra {
+		// Wait has returned: whatever the queue accepted before it was
+		// closed is part of "accepted before its shutdown"
+		return "job-not-run", fmt.Sprintf("Cleanup: %d functions were accepted (Add returned nil) while the service was shutting down, %d of them ran", nExtra, ranExtra)
 	}
 	for i := 0; i < n; i++ {
 		r := runs[i].Load()
@@ -536,6 +624,9 @@ func TestPools(t *testing.T) {
 			}
 		}
 		c.Early = rapid.IntRange(0, len(c.Jobs)).Draw(t, "early")
+		if rapid.IntRange(0, 2).Draw(t, "racing") == 0 {
+			c.Racing = rapid.IntRange(1, 4).Draw(t, "racingProducers")
+		}
 		if c.Kind == "HandlerWorkerPool" {
 			// a panicking job is reported through Wait, and the handler
 			// is also the service's ErrorHandler
